@@ -120,4 +120,4 @@ LEVEL_NOTE = ("Trusted: Lean kernel; axioms propext/Classical.choice/Quot.sound 
               "ASCII names only. Not constrained by the spec (reported; observed as `amt` / `sgn`, model mirrors the code, theorem amount_sign_convention): Gateio "
               "futures/perpetual/option sells carry a negative PublicTrade.amount while "
               "every other connector reports the absolute quantity; batches that mix symbols are attributed wholly to the first trade's instrument.")
-SUBCHECKS = ["C13S", "C13Q", "C13V"]
+SUBCHECKS = ["C13S", "C13Q", "C13V", "C13D"]
